@@ -69,6 +69,17 @@ func ZZC05_blobput_front() {
 			break
 		}
 	}
+	// a single PUT may break off mid-body with the registry keeping what it got (possibly more than one client chunk)
+	srv.PutBreaksAfter = zzInt("registry_put_breaks_after", 0, 2+zzTier())
+	for k := 0; k <= 2+zzTier(); k++ {
+		if srv.PutBreaksAfter == k {
+			srv.PutBreaksAfter = k
+			break
+		}
+	}
+	if srv.PutBreaksAfter > 0 {
+		zzAssume(srv.MinChunk == 0 && srv.MaxPutBody == 0) // one complication at a time
+	}
 	chunk := zzInt("chunk", 1, 3)
 	for k := 1; k <= 3; k++ {
 		if chunk == k {
@@ -90,6 +101,9 @@ func ZZC05_blobput_front() {
 	zzReach("blobput_returned")
 	if err == nil {
 		zzReach("blobput_succeeded")
+		if srv.PutBreaksAfter > 0 && n > srv.PutBreaksAfter && n > 0 && declared == 2 && srv.PutBreaksAfter > chunk {
+			zzReach("resumed_beyond_the_first_chunk_after_a_broken_put")
+		}
 		zzAssert(wellFormed, "misdeclared_upload_fails")
 		zzAssert(dOut.Digest == real, "returned_digest_is_content_digest")
 		zzAssert(dOut.Size == int64(n), "returned_size_is_content_length")
@@ -104,7 +118,7 @@ func ZZC05_blobput_front() {
 	} else {
 		zzReach("blobput_failed")
 		// the fall-back needs a rewind: a plain reader may legitimately fail once a single PUT was refused
-		forced := srv.MaxPutBody > 0 && n > srv.MaxPutBody
+		forced := (srv.MaxPutBody > 0 && n > srv.MaxPutBody) || (srv.PutBreaksAfter > 0 && n > srv.PutBreaksAfter)
 		if wellFormed && (seekable || !forced) {
 			zzFail("well_formed_upload_succeeds")
 		}
